@@ -51,6 +51,7 @@ type pubM struct {
 }
 
 type callM struct {
+	invSeq   int // event sequence number of the pick's invocation
 	ch       int // placed channel, -1 none
 	start    time.Duration
 	rr       bool
@@ -107,6 +108,8 @@ type Model struct {
 	op        *coreOp
 	rrSeq     []rrObs
 	rrEpochN  int
+	rrBounds  []rrBound
+	rrBurst   []rrPick
 	epoch     int
 	rrInvoked int
 	maxPool   int
@@ -138,6 +141,7 @@ type Model struct {
 }
 
 type coreOp struct {
+	pubStates []connectivity.State // states published during this callback, in order
 	op        int
 	kind      string
 	conn      int
@@ -514,6 +518,7 @@ func (m *Model) opStart(ev Event) {
 		if o.state == connectivity.Shutdown {
 			ch.gone = true
 			m.epoch++
+			m.rrBounds = append(m.rrBounds, rrBound{seq: ev.Seq, n: -1})
 			m.probe("pool_conn_shutdown")
 		}
 		if wasReady != (o.state == connectivity.Ready) {
@@ -568,6 +573,7 @@ func (m *Model) newSC(ev Event) {
 		m.chans = append(m.chans, ch)
 		m.conns[ev.Conn] = &connM{id: ev.Conn, ch: ch.idx, role: rolePool}
 		m.epoch++
+		m.rrBounds = append(m.rrBounds, rrBound{seq: ev.Seq, n: len(m.chans)})
 		if m.op != nil && ev.Phase == PhCore {
 			m.op.newSC = append(m.op.newSC, ev.Conn)
 		}
@@ -639,6 +645,7 @@ func (m *Model) published(ev Event) {
 	m.pubs = append(m.pubs, p)
 	if m.op != nil {
 		m.op.pubs++
+		m.op.pubStates = append(m.op.pubStates, ev.State)
 	}
 }
 
@@ -755,6 +762,18 @@ func (m *Model) opEnd(ev Event) {
 	if o.kind == "conn" && o.known && (o.kindConn == rolePool || o.swapOld >= 0) {
 		m.aggKnown = true
 	}
+	// "Whenever the balancer has published a state ... the last published state
+	// is ..." holds between two publications of one callback too (calls are
+	// picked meanwhile): every publication made while a connection's report is
+	// processed shows the aggregate from before the report or the one after it.
+	if o.kind == "conn" && o.aggKnown && len(m.chans) > 0 {
+		for i, st := range o.pubStates {
+			if st != o.aggBefore && st != agg {
+				m.vAlways("C04", "transient-publication", "", fmt.Sprintf("while processing %s sc%d->%v the balancer published %v (publication %d of %d in that callback); the pool aggregate was %v before the report and is %v after it", o.kind, o.conn, o.state, st, i+1, len(o.pubStates), o.aggBefore, agg), ev.Op)
+				break
+			}
+		}
+	}
 	if len(m.pubs) > 0 && len(m.chans) > 0 {
 		last := m.pubs[len(m.pubs)-1]
 		if last.state != agg {
@@ -795,7 +814,7 @@ func set(xs ...int) map[int]bool {
 //go:norace
 func (m *Model) pickInvoke(ev Event) {
 	c := m.s.calls[ev.Call]
-	cm := &callM{ch: -1}
+	cm := &callM{ch: -1, invSeq: ev.Seq}
 	m.calls[ev.Call] = cm
 	if c.PubIdx < 0 || c.PubIdx >= len(m.pubs) {
 		return
@@ -995,6 +1014,9 @@ func (m *Model) pickReturn(ev Event) {
 	}
 	if cm.ex == nil || m.track {
 		// structural bookkeeping only
+		if m.track && cm.rr {
+			m.rrBurst = append(m.rrBurst, rrPick{call: c.ID, inv: cm.invSeq, ret: ev.Seq, ch: placedCh})
+		}
 		if placedCh >= 0 {
 			cm.ch = placedCh
 			cm.placed = true
@@ -1147,6 +1169,131 @@ func (m *Model) rrReturn(c *Call, cm *callM, placedCh int, ev Event) {
 	}
 }
 
+type rrBound struct{ seq, n int } // composition change: event, channels afterwards (-1: run not judged)
+
+type rrPick struct{ call, inv, ret, ch int }
+
+// RRBurstCheck judges the round-robin BIND picks of a concurrent burst after it
+// has quiesced (C09). The pool's composition changes at known events (a channel
+// is added). Between two changes, the picks that were invoked and returned
+// inside that window are consecutive BIND calls over an unchanged pool: in SOME
+// order consistent with real time (a pick that returned before another was
+// invoked comes first) each must get the channel after its predecessor's, in
+// creation order, cyclically. A pick that overlaps a change may have taken its
+// turn on either side: it may be placed anywhere its interval allows, or left
+// out. No such order = no linearization of the round-robin assignment.
+//
+//go:norace
+func (m *Model) RRBurstCheck() {
+	if !m.track || m.degraded || len(m.rrBurst) < 2 {
+		return
+	}
+	for _, b := range m.rrBounds {
+		if b.n < 0 {
+			return
+		}
+	}
+	const inf = int(^uint(0) >> 1)
+	for w := 0; w <= len(m.rrBounds); w++ {
+		lo, hi, n := -1, inf, 0
+		if w > 0 {
+			lo, n = m.rrBounds[w-1].seq, m.rrBounds[w-1].n
+		}
+		if w < len(m.rrBounds) {
+			hi = m.rrBounds[w].seq
+		}
+		if n < 2 {
+			continue
+		}
+		var ops []rrPick
+		var must []bool
+		nMust := 0
+		for _, p := range m.rrBurst {
+			if p.ch < 0 {
+				return // a pick that was not placed: nothing to say about the cycle
+			}
+			in := p.inv > lo && p.ret < hi
+			if !in && !(p.inv < hi && p.ret > lo) {
+				continue
+			}
+			if !in && p.ch >= n {
+				continue // took its turn after a later change
+			}
+			ops = append(ops, p)
+			must = append(must, in)
+			if in {
+				nMust++
+			}
+		}
+		if nMust < 2 {
+			continue
+		}
+		if len(ops) > 16 {
+			m.probe("rr_burst_window_too_large")
+			continue
+		}
+		m.probe("rr_burst_window_judged")
+		if len(ops) > nMust {
+			m.probe("rr_burst_window_with_overlapping_pick")
+		}
+		full := 0
+		for i := range ops {
+			if must[i] {
+				full |= 1 << uint(i)
+			}
+		}
+		seen := map[int]bool{}
+		var dfs func(used, last int) bool
+		dfs = func(used, last int) bool {
+			if used&full == full {
+				return true
+			}
+			key := used*64 + last + 1
+			if seen[key] {
+				return false
+			}
+			seen[key] = true
+			for i, x := range ops {
+				if used&(1<<uint(i)) != 0 {
+					continue
+				}
+				if last >= 0 && x.ch != (last+1)%n {
+					continue
+				}
+				ok := true
+				for j, y := range ops {
+					if j == i {
+						continue
+					}
+					if used&(1<<uint(j)) != 0 {
+						if x.ret < y.inv {
+							ok = false // x wholly precedes a pick already placed
+						}
+					} else if must[j] && y.ret < x.inv {
+						ok = false // a pick that must be placed wholly precedes x
+					}
+				}
+				if ok && dfs(used|1<<uint(i), x.ch) {
+					return true
+				}
+			}
+			return false
+		}
+		if !dfs(0, -1) {
+			desc := ""
+			for i, x := range ops {
+				o := ""
+				if !must[i] {
+					o = " (overlaps a change of the pool)"
+				}
+				desc += fmt.Sprintf(" call %d [%d,%d] -> channel %d%s;", x.call, x.inv, x.ret, x.ch, o)
+			}
+			m.vAlways("C09", "rr-not-cyclic", "concurrent", fmt.Sprintf("round-robin BIND calls made while the pool had the same %d channels (events %d..%d) cannot be ordered, consistently with real time, so that each gets the channel after its predecessor's:%s", n, lo, hi, desc), -1)
+			return
+		}
+	}
+}
+
 // PredictRR returns the channel a pending round-robin pick is heading for, if
 // earlier observations determine it.
 //
@@ -1290,6 +1437,9 @@ func (m *Model) doneReturn(ev Event) {
 		did := created + failed
 		if ch.k[0] >= 2 && c.Outcome == OutClientDE {
 			m.probe("refresh_rule_judged_backoff_ge2")
+		}
+		if ch.k[0] >= 5 && c.Outcome == OutClientDE {
+			m.probe("refresh_rule_judged_backoff_ge5")
 		}
 		standing, rule, msg := 0, "", ""
 		for v := 0; v < 2; v++ {
